@@ -25,7 +25,9 @@ REACH = {"ItemsList.__getitem__": "ItemsList.__getitem__", "ItemsList.__contains
 ASSUMPTIONS = ["the property speaks of *adding*: a rename onto an existing name is not required to be refused; after such a rename a name lookup must only return an item with exactly that name",
                "non-int/str keys are not exercised", "a lookup of an absent name must not return an item (the exception type is not demanded)"]
 NAMES = [None, None, None, "Table 1", "table 1", "TABLE 2", "Table 2", "Table 3", "Sheet 2", "sheet 1", "SHEET 3", "Sheet 1", "X", "x", "", "Ünï", "ünÏ",
-         "Table 10", "Sheet 10", "A" * 300, "Table  1", " Table 1", "表", "Table 01", "ǅ", "ß", "SS", "İ"]
+         "Table 10", "Sheet 10", "A" * 300, "Table  1", " Table 1", "表", "Table 01", "ǅ", "ß", "SS", "İ",
+         # not in normalisation form C (the name given is the name kept and found), and their precomposed twins (different names)
+         "Re\u0301sume\u0301", "R\u00e9sum\u00e9", "\u212b", "\u00c5", "Stra\u00dfe", "STRASSE", "\u03c2igma", "\u03c3igma"]
 
 
 def rule(tier):
